@@ -16,6 +16,8 @@ MC_InitHosts ==
     [] Scenario = "two"      -> {H(1, 1, FALSE, 0), H(2, 2, TRUE, 5)}
     [] Scenario = "mix"      -> {H(1, 1, FALSE, 0), H(1, 2, TRUE, 5)}
     [] Scenario = "apionly"  -> {H(1, 1, TRUE, 10)}          \* fresh and online: purge only scans
+    [] Scenario = "returning" -> {H(1, 1, FALSE, 0)}         \* a client comes back under a new address; its old one is purgeable
+    [] Scenario = "twoold"   -> {H(1, 1, FALSE, 0), H(1, 2, TRUE, 5)}
     [] OTHER                 -> {}
 MC_Frames ==
   CASE Scenario = "stale"    -> <<Fr(1, 1)>>
@@ -23,6 +25,8 @@ MC_Frames ==
     [] Scenario = "dup"      -> <<Fr(2, 1), Fr(1, 1)>>
     [] Scenario = "two"      -> <<Fr(1, 1), Fr(2, 2)>>
     [] Scenario = "mix"      -> <<Fr(1, 1), Fr(1, 2)>>
+    [] Scenario = "returning" -> <<Fr(1, 2)>>
+    [] Scenario = "twoold"   -> <<Fr(2, 1), Fr(1, 1)>>
     [] OTHER                 -> <<>>
 
 (* ---- gate-granular instance (direction A): context switches only where the real code can be held
@@ -32,9 +36,10 @@ MC_Frames ==
 VARIABLES cur, hist, qbad    \* qbad: C05 failed at some quiescent point of the schedule (index into hist)
 ggvars == <<htab, mtab, hobj, mobj, nextH, nextM, sess, row, pc, loc,
             arpMu, hunting, arpClosed, closeChanClosed, h6Chan, h6Mu, h6Closed, sessClosed, staleDel, panicked, cur, hist, qbad>>
-SwitchPcs == {"idle", "done", "foc_g", "ot_b", "nt_g", "pg_g", "pg_r", "api_pick"}
+CONSTANT OfflineGate      \* TRUE: the tree carries the optional gate purge.offline (hooks/packet_gates-2.patch)
+SwitchPcs == {"idle", "done", "foc_g", "ot_b", "nt_g", "pg_g", "pg_r", "api_pick"} \cup (IF OfflineGate THEN {"pg_og"} ELSE {})
 GateName(p, c) == CASE c = "foc_g" -> "foc.upgrade" [] c = "ot_b" -> "ot.mid" [] c = "nt_g" -> "notify.write"
-                    [] c = "pg_g" -> "purge.delete" [] c = "done" /\ p = "loop" -> "exit" [] OTHER -> "end"
+                    [] c = "pg_g" -> "purge.delete" [] c = "pg_og" -> "purge.offline" [] c = "done" /\ p = "loop" -> "exit" [] OTHER -> "end"
 StepOf(p) == IF p = "loop" THEN LoopNext \/ MakeOfflineNext("loop")
              ELSE IF p = "purge" THEN PurgeNext \/ MakeOfflineNext("purge")
              ELSE ApiNext(p)
